@@ -519,3 +519,105 @@ func runResponseCarriesHandlerError(c *core.Ctx) {
 	}
 	c.Floor("reply helpers given an error in handleConn", n, 1)
 }
+
+// runDoubleCheckedInsert (C19): a function that inserts a freshly created object (New...() / &T{...}) into a map field
+// of pointers under the write lock looks the key up in that map after taking the lock: two goroutines that both found
+// the key missing before the lock otherwise overwrite each other's object, and the loser keeps working on an object
+// that is no longer in the map (for MeasurementFieldSet: two writers create the same new field with different types,
+// each in its own MeasurementFields).
+func runDoubleCheckedInsert(c *core.Ctx, pkgs []string, floor int) {
+	n := 0
+	for _, rel := range pkgs {
+		for _, g := range c.P.FuncsIn(rel) {
+			// the contract is in the name: Create...IfNotExists hands every caller the one object registered for the
+			// key (other inserting functions use unique keys or replace on purpose: confirmed by reading, not armed)
+			if g.Body == nil || g.Lit != nil || g.Decl == nil || !strings.Contains(g.Decl.Name.Name, "IfNotExists") {
+				continue
+			}
+			info := g.Info()
+			var wlocks []*core.LockOp
+			for _, op := range g.LockOps() {
+				if op.Acquire && strings.HasSuffix(op.Class, "#W") {
+					wlocks = append(wlocks, op)
+				}
+			}
+			if len(wlocks) == 0 {
+				continue
+			}
+			mapField := func(x ast.Expr) *types.Var {
+				ix, ok := ast.Unparen(x).(*ast.IndexExpr)
+				if !ok {
+					return nil
+				}
+				se, ok := ast.Unparen(ix.X).(*ast.SelectorExpr)
+				if !ok {
+					return nil
+				}
+				v, ok := info.ObjectOf(se.Sel).(*types.Var)
+				if !ok || !v.IsField() {
+					return nil
+				}
+				mt, isMap := v.Type().Underlying().(*types.Map)
+				if !isMap {
+					return nil
+				}
+				if _, isPtr := mt.Elem().Underlying().(*types.Pointer); !isPtr {
+					return nil
+				}
+				return v
+			}
+			fresh := func(x ast.Expr) bool {
+				x = ast.Unparen(derefLocal(g, x))
+				if u, ok := x.(*ast.UnaryExpr); ok && u.Op.String() == "&" {
+					_, isLit := ast.Unparen(u.X).(*ast.CompositeLit)
+					return isLit
+				}
+				if ce, ok := x.(*ast.CallExpr); ok {
+					if fn, ok := core.Callee(info, ce).(*types.Func); ok && strings.HasPrefix(strings.ToLower(fn.Name()), "new") {
+						return true
+					}
+				}
+				return false
+			}
+			for _, st := range g.Graph().Events {
+				if st.Kind != core.EvAssign {
+					continue
+				}
+				as, ok := st.Node.(*ast.AssignStmt)
+				if !ok || len(as.Lhs) != 1 || len(as.Rhs) != 1 {
+					continue
+				}
+				fld := mapField(as.Lhs[0])
+				if fld == nil || !fresh(as.Rhs[0]) {
+					continue
+				}
+				reread := func(e *core.Event) bool {
+					if e == st || e.Node == nil {
+						return false
+					}
+					found := false
+					ast.Inspect(e.Node, func(m ast.Node) bool {
+						if ix, ok := m.(*ast.IndexExpr); ok && mapField(ix) == fld {
+							found = true
+						}
+						return true
+					})
+					return found
+				}
+				for _, w := range wlocks {
+					if w.Ev.Pos() > st.Pos() {
+						continue
+					}
+					n++
+					store := st
+					p := g.Flow().PathAvoiding(w.Ev, func(x *core.Event) bool { return x == store }, reread)
+					c.Check("create-if-absent-rechecks-under-lock", fmt.Sprintf("%s/%s", g.Name, fld.Name()), c.P.Pos(st.Pos()), p == nil,
+						"a freshly created object is inserted under the write lock without looking the key up again after the lock was taken: two callers that both found the key missing overwrite each other's object, and the loser keeps working on an object that is no longer in the map")
+				}
+			}
+		}
+	}
+	if floor > 0 {
+		c.Floor("inserts of freshly created objects into map fields under a write lock", n, floor)
+	}
+}
